@@ -297,7 +297,16 @@ fn corpus(family: &str, tier: &str) -> Corpus {
     "pairs" => {
       let gens = generated_models();
       let take = if thorough { gens.len() } else { 2 };
-      for (l, t) in gens.into_iter().take(take) {
+      let mut all: Vec<(String, String)> = gens.into_iter().take(take).collect();
+      if thorough {
+        // and the smallest shipped models
+        let mut shipped = shipped_models();
+        shipped.retain(|m| !skip.contains(&m.0));
+        // every shipped model with at most 400 single faults (at most 160000 index pairs each)
+        shipped.retain(|m| faults_of(&m.1).len() <= 400);
+        all.extend(shipped);
+      }
+      for (l, t) in all {
         let f = faults_of(&t);
         // all ordered-by-position pairs of non-overlapping faults, realised as composite faults on demand
         models.push((l, t, f));
@@ -308,7 +317,7 @@ fn corpus(family: &str, tier: &str) -> Corpus {
       let mut all = shipped_models();
       all.retain(|m| !skip.contains(&m.0));
       all.sort_by_key(|m| m.1.len());
-      all.truncate(if thorough { 6 } else { 2 });
+      all.truncate(if thorough { 48 } else { 3 });
       let gens = generated_models();
       let take = if thorough { gens.len() } else { 1 };
       all.extend(gens.into_iter().take(take));
